@@ -467,6 +467,18 @@ def graph_leg(ctx, module, model, gen_cfg, cfgobj, walks, walklen, allhist, sim_
 # ----------------------------------------------------------------------------------------------
 # harness invocation
 
+def recorder_failed(ctx, name, p, model):
+    """A recorder process that ends abnormally died INSIDE the code under test (the recorders do nothing else that can abort):
+    a panic that escaped (101), an abort or stack overflow (134 / 139 / signal). That is data - a failure of the property's
+    'returns a value' side - not a tool error. Anything else (usage error, I/O) stays a tool error."""
+    if p.returncode in (101, 134, 139) or p.returncode < 0:
+        ctx.failures.append({"model": model, "kind": "recorder-process-died", "cfg": {}, "prefix": [], "label": {"recorder": name},
+                             "allowed": ["every call into the code under test returns"],
+                             "actual": {"exit": p.returncode, "stderr": p.stderr[-600:]}})
+        return True
+    raise ToolError("%s failed (rc=%s): %s" % (name, p.returncode, p.stderr[-500:]))
+
+
 def vh(args, timeout=3600, stdin=None, env=None):
     e = dict(os.environ)
     if env:
